@@ -530,6 +530,28 @@ func (r *runner) opOffsetFetch(i int, o *op) {
 	if f.Kind == "" {
 		return
 	}
+	if f.Kind == "group-code" {
+		// a refusal of the whole request (v2+: top-level error code) is reported as the response's Error
+		r.label("offsetfetch_group_error")
+		r.arm(&armedFault{api: 9, f: f})
+		resG, errG := cli.OffsetFetch(ctx, &kafka.OffsetFetchRequest{GroupID: o.Group, Topics: topics})
+		if r.disarm() == 0 {
+			r.tb.Fatalf("harness: %sthe group-level fault never fired", what)
+		}
+		switch {
+		case errG != nil:
+			if !errors.Is(errG, kafka.Error(f.Code)) {
+				r.fail("c19/offsetfetch-group-error", "%swith the coordinator answering error code %d for the whole request failed with %v", what, f.Code, errG)
+			}
+		case resG == nil || !errors.Is(resG.Error, kafka.Error(f.Code)):
+			var got error
+			if resG != nil {
+				got = resG.Error
+			}
+			r.fail("c19/offsetfetch-group-error", "%swith the coordinator answering error code %d for the whole request (top-level field, OffsetFetch v%d) reports Error=%v", what, f.Code, r.c.Cluster.OffsetFetchMax, got)
+		}
+		return
+	}
 	target := tp{f.Topic, f.Partition}
 	if exp[target] == nil {
 		r.tb.Fatalf("harness: fault targets %v which the fetch does not cover", target)
